@@ -1,12 +1,19 @@
 // Harness: runs the implementation in /repo on case lines read from stdin and
 // prints one canonical result line per case (same protocol as ocaml/driver.ml).
+//
+// Modes (environment):
+//   VERIF_CONC=G  run the cases concurrently on G goroutines sharing one config (C12)
+//   VERIF_PURE=1  treat the input as one history: fingerprint the shared configuration and
+//                 package-level values after every call (C13)
 package main
 
 import (
 	"bufio"
 	"fmt"
 	"os"
+	"strconv"
 	"strings"
+	"sync"
 )
 
 type handler func(toks []string) string
@@ -25,24 +32,75 @@ func safe(h handler, toks []string) (out string) {
 	return h(toks)
 }
 
+func runLine(line string) string {
+	toks := strings.Fields(line)
+	h, ok := handlers[toks[0]]
+	if !ok {
+		return "ERR unknown op " + toks[0]
+	}
+	return safe(h, toks)
+}
+
 func main() {
 	in := bufio.NewReaderSize(os.Stdin, 1<<20)
 	out := bufio.NewWriterSize(os.Stdout, 1<<20)
 	defer out.Flush()
 	sc := bufio.NewScanner(in)
 	sc.Buffer(make([]byte, 1<<20), 1<<28)
+
+	if g, _ := strconv.Atoi(os.Getenv("VERIF_CONC")); g > 0 {
+		var lines []string
+		for sc.Scan() {
+			if l := strings.TrimSpace(sc.Text()); l != "" {
+				lines = append(lines, l)
+			}
+		}
+		config() // shared, built once
+		res := make([]string, len(lines))
+		var wg sync.WaitGroup
+		var mu sync.Mutex
+		next := 0
+		for w := 0; w < g; w++ {
+			wg.Add(1)
+			go func() {
+				defer wg.Done()
+				for {
+					mu.Lock()
+					i := next
+					next++
+					mu.Unlock()
+					if i >= len(lines) {
+						return
+					}
+					res[i] = runLine(lines[i])
+				}
+			}()
+		}
+		wg.Wait()
+		for _, r := range res {
+			fmt.Fprintln(out, r)
+		}
+		return
+	}
+
+	pure := os.Getenv("VERIF_PURE") == "1"
+	var fp0 string
+	if pure {
+		fp0 = cheapFingerprint()
+	}
 	for sc.Scan() {
 		line := strings.TrimSpace(sc.Text())
 		if line == "" {
 			continue
 		}
-		toks := strings.Fields(line)
-		h, ok := handlers[toks[0]]
-		if !ok {
-			fmt.Fprintf(out, "ERR unknown op %s\n", toks[0])
-			continue
+		r := runLine(line)
+		if pure {
+			if fp := cheapFingerprint(); fp != fp0 {
+				r += " CONFIG-CHANGED"
+				fp0 = fp
+			}
 		}
-		fmt.Fprintln(out, safe(h, toks))
+		fmt.Fprintln(out, r)
 		out.Flush()
 	}
 }
